@@ -45,6 +45,14 @@ T = {
  "W3_C16_rpdac_accepts_hashrpdac": ("C16", "RPDAC::load accepts tag HASHRPDAC", "RPDAC's own loader given a HASHRPDAC image (or an image re-tagged 124): returns a garbage object instead of NULL"),
  "W3_C18_statcoder_window": ("C18", "StatCoder::encodeSymbol left-aligns the codeword once in a 32-bit window", "codewords >= 26 bits (Fibonacci-like counts over >= 22 symbols) starting at a bit offset with bits+offset > 32: trailing bits written as zeros"),
  "W3_C20_getbits": ("C20", "RePair::getBits returns bits(rules+terminals-2)", "largest identifier an exact power of two (or rules+terminals = 2)"),
+ "W4_C01_dacvls_uchar_len": ("C01", "DAC_VLS::access keeps the symbol count in a uchar", "RPDAC / HASHRPDAC / HASHRPDACBlocks extract of a member whose Re-Pair compressed form has >= 256 symbols (>= 256 bytes of poorly compressible text): a proper prefix is returned"),
+ "W4_C02_hashrpf_compare_len": ("C02", "RePair::extractStringAndCompareRP compares only the query's length (do/while)", "HASHRPF locate of an absent proper prefix of a member (or member + the closing-symbol byte) whose probe sequence reaches that member's cell and whose end falls on a Re-Pair symbol boundary"),
+ "W4_C04_xbw_extractprefix_plus1": ("C04", "IteratorDictStringXBW::idToStr base case uses cnt > 1", "XBW extractPrefix when a member is the pattern plus exactly one byte: that member comes back truncated; locatePrefix stays right"),
+ "W4_C06_logseq_load_cleanup": ("C06", "LogSequence load constructor masks the 'unused' bits of the last word when numbits > 16", "any packed array with fields wider than 16 bits whose bit count is an exact multiple of 64: the full last word is zeroed (PFC family: > 64 KB of coded text and (buckets+2)*bits % 64 == 0; grammars >= 65536 symbols)"),
+ "W4_C13_pfc_iter_length": ("C13", "IteratorDictStringPFC derives the length from the bytes consumed assuming a 1-byte VByte", "PFC extractTable / extractPrefix of a non-header string sharing >= 128 bytes with its predecessor: reported length = strlen + 1"),
+ "W4_C14_hashrpf_terminator": ("C14", "extractStringAndCompareRP restores the caller's terminator on all paths but one", "HASHRPF locate of a pattern that is a proper prefix of the string in the last probed cell: the byte after the pattern stays overwritten with the closing symbol; answers unchanged"),
+ "W4_C17_dacvls_last_single": ("C17", "DAC_VLS constructor loops stop one element early", "a list whose LAST sequence has exactly one symbol: it is dropped (getListLength n-1, access(n) returns another sequence's tail)"),
+ "W4_C19_rg_select0": ("C19", "BitSequenceRG::select0 superblock search uses <=", "select0(j) when j equals the number of zeros before a superblock boundary and the last bit of that superblock is 1 (vectors >= 32*factor bits); also WaveletTree select through it"),
 }
 for d in sorted(os.listdir(S)):
     p = os.path.join(S, d)
